@@ -4,14 +4,12 @@ PROPS = {}
 
 # Properties not (yet) claimed. Kept current by hand; gen_manifest.py copies it.
 NOT_APPLICABLE = {
-    'C01': 'check not built yet in this round (planned, see DESIGN.md section 5)',
     'C02': 'check not built yet in this round (planned, see DESIGN.md section 5)',
     'C03': 'check not built yet in this round (planned, see DESIGN.md section 5)',
     'C04': 'check not built yet in this round (planned, see DESIGN.md section 5)',
     'C05': 'check not built yet in this round (planned, see DESIGN.md section 5)',
     'C06': 'check not built yet in this round (planned, see DESIGN.md section 5)',
     'C07': 'check not built yet in this round (planned, see DESIGN.md section 5)',
-    'C09': 'check not built yet in this round (planned, see DESIGN.md section 5)',
     'C10': 'check not built yet in this round (planned, see DESIGN.md section 5)',
     'C11': 'check not built yet in this round (planned, see DESIGN.md section 5)',
     'C12': 'check not built yet in this round (planned, see DESIGN.md section 5)',
@@ -99,4 +97,46 @@ PROPS['C13'] = dict(
     exhaustive_expected=dict(quick=1968875, thorough=1968875),
     exhaustive_scope='all lists of <= 3 triangles over vertex ids 0..4 (thorough: also all lists of 4 triangles, counter exhaustive_lists_eq4); the random lists are a sample on top',
     assumptions=['vertex ids limited to 0..4 in the exhaustive block'],
+)
+
+_GEN_RULE = ('one case = (generated geometry, generated option vector): topology family (grid, cylinder, torus, subdivided octahedron, tetrahedra, fan, Moebius strip, soup, strip; '
+             'mutations: holes, non-manifold fins, bow-tie, duplicated / mirrored / degenerate faces, shuffled faces, isolated points, unused entries, duplicated points) in size classes '
+             '0 / 1 / 2-12 / 13-200 / 201-3000 faces (point clouds: 0..4440 points), exactly one POSITION (float32 or integer) plus 0-4 NORMAL/COLOR/TEX_COORD/GENERIC attributes '
+             '(1-8 components, int8..uint32/float32, per-vertex / per-corner with seam probability 0,0.05,0.5,1 / per-face), Encoder or ExpertEncoder, method, Edgebreaker sub-method, '
+             'speeds 0-10, per-attribute quantization 1-30 bits, forced prediction scheme, built-in compression on/off, split-on-seams. ')
+
+PROPS['C01'] = dict(
+    title='Encode/decode round trip reproduces the geometry exactly (modulo quantization)',
+    technique='runtime monitoring: canonical-multiset round-trip oracle with an independent reference quantizer over generated geometries x option vectors; ASan/UBSan slice',
+    level='exploration',
+    level_text=('Every generated (geometry, options) pair is encoded and decoded with the tree under test; an oracle written against the public accessors only compares the attribute set by unique id and the '
+                'canonical form (ordered for sequential methods, multiset for Edgebreaker/kd-tree with exactly the permitted omissions), where quantized attributes are first mapped through an '
+                'independent re-statement of the declared quantizer (octahedral normals: the library tool box), and requires the stream to be consumed exactly. Encoder refusals are legal and histogrammed; '
+                'decoder-side path events show which coders were reached.'),
+    level_note=('Sampled input/option space. The octahedral reference uses the library tool box (C07 checks it independently). Constrained multi-parallelogram is kept away from >18-bit integer images '
+                '(its entropy tracker needs O(max residual) memory). Option compress_connectivity is outside the property quantifier and not exercised.'),
+    rule=_GEN_RULE + 'Non-trivial = encoder accepted and the decoded geometry has >= 1 point; distinct = hash of the produced stream.',
+    runs=[dict(variant='plain', harness='c01_roundtrip', cases=dict(quick=160000, thorough=4000000)),
+          dict(variant='asan', harness='c01_roundtrip', tag='asan-slice', cases=dict(quick=16000, thorough=400000), extra=['--slice', 'asan'])],
+    min_nontrivial=20000,
+    require_counters={'config/edgebreaker': 5000, 'config/mesh-sequential': 2000, 'config/kd-tree': 500, 'config/pc-sequential': 1000,
+                      'attribute_mode/uniform-quantized': 5000, 'attribute_mode/octahedral': 500, 'path/prediction/method4-*': 100, 'path/prediction/method5-*': 20,
+                      'path/prediction/method6-*': 100, 'path/edgebreaker_traversal_coder/2': 500, 'path/topology_splits/1-3': 100, 'omitted_degenerate_triangles': 100,
+                      'encoder_refused/*': 10},
+    assumptions=['float32 arithmetic without FMA contraction (x86-64 baseline), reference quantizer mirrors the documented operation order'],
+)
+
+PROPS['C09'] = dict(
+    title='Reported encoded point/face counts equal what the decoder produces',
+    technique='runtime monitoring: encoder-reported counts compared with the decoded geometry over generated geometries x option vectors',
+    level='exploration',
+    level_text=('With tracking enabled on every case, num_encoded_points()/num_encoded_faces() of both front ends are compared with num_points()/num_faces() of the geometry obtained by decoding '
+                'the produced stream, over the C01 generator (seams on interior and boundary vertices, several attributes with different seam sets, non-manifold vertices, degenerate faces, '
+                'isolated and duplicated points, split-on-seams on/off).'),
+    level_note='Sampled input/option space; the decoded geometry is the oracle.',
+    rule=_GEN_RULE + 'Non-trivial = encoder accepted and >= 1 decoded point; distinct = hash of the produced stream.',
+    runs=[dict(variant='plain', harness='c01_roundtrip', prop='C09', cases=dict(quick=120000, thorough=3000000))],
+    min_nontrivial=20000,
+    require_counters={'config/edgebreaker': 5000, 'config/kd-tree': 500, 'frontend/Encoder': 5000, 'frontend/ExpertEncoder': 5000, 'point_count_changed_by_encoding': 500},
+    assumptions=[],
 )
